@@ -5328,3 +5328,212 @@ func ruleBlockEntryDeletedOnlyWhenEmpty(r *Run) {
 	}
 	r.check(n >= 1, "ModifyBlocks:block-entry-deletes", fmt.Sprintf("%d", n), "none found: rule needs review", w.fpos(f))
 }
+
+// ---------------------------------------------------------------------------------------------
+// R20.64 / R8.25 — a loop that fills a slice advances its index
+
+func init() {
+	reg := func(id, prop string) {
+		register(ruleDef{ID: id, Prop: prop, Tier: "quick", Floor: 1,
+			Title: "a loop that fills a slice advances its index: in the datastore, server, storage and datatype packages, a store of the loop's current element into s[i] inside a range loop has an index that changes with the iteration — an index defined before the loop and never advanced puts every element into the same slot (labelmap's mutation history then asks for the mappings of supervoxel 0 instead of the body's supervoxels)",
+			Fn:    ruleFillLoopAdvancesIndex})
+	}
+	reg("R20.64", "C20")
+	reg("R8.25", "C08")
+}
+
+func ruleFillLoopAdvancesIndex(r *Run) {
+	w := r.W
+	n := 0
+	for _, f := range w.RepoFuncs {
+		if len(f.Blocks) == 0 || isTestFunc(w, f) {
+			continue
+		}
+		p := relPkg(pkgPathOf(f))
+		if !(strings.HasPrefix(p, "datatype/") || p == "datastore" || p == "server" || strings.HasPrefix(p, "storage")) {
+			continue
+		}
+		k := 0
+		for _, b := range f.Blocks {
+			for _, in := range b.Instrs {
+				st, ok := in.(*ssa.Store)
+				if !ok {
+					continue
+				}
+				ia, ok := st.Addr.(*ssa.IndexAddr)
+				if !ok {
+					continue
+				}
+				if _, isSlice := ia.X.Type().Underlying().(*types.Slice); !isSlice {
+					continue
+				}
+				h, set, _ := innermostLoop(f, b)
+				if set == nil {
+					continue
+				}
+				// the stored value is the loop's current element: it depends on a Next of a range in this loop's header
+				fromIter := false
+				for d := range dataDeps(st.Val) {
+					if ex, ok := d.(*ssa.Extract); ok {
+						if nx, ok := ex.Tuple.(*ssa.Next); ok && set[nx.Block()] {
+							fromIter = true
+						}
+					}
+				}
+				if !fromIter {
+					continue
+				}
+				// the slice is not made inside the loop (a per-iteration buffer)
+				madeInside := false
+				for _, rv := range roots(ia.X, f) {
+					if mk, ok := rv.V.(*ssa.MakeSlice); ok && set[mk.Block()] {
+						madeInside = true
+					}
+				}
+				if madeInside {
+					continue
+				}
+				n++
+				k++
+				// does the index change with the iteration?
+				varies := false
+				idx := ia.Index
+				if _, isConst := idx.(*ssa.Const); isConst {
+					// a slot of a record that the same iteration goes on to use is another idiom; a constant slot of
+					// a slice that the loop otherwise never touches is an index that was meant to advance
+					usedInLoop := false
+					for _, rv := range roots(ia.X, f) {
+						if refs := rv.V.Referrers(); refs != nil {
+							for _, ref := range *refs {
+								if ref != ssa.Instruction(ia) && set[ref.Block()] {
+									usedInLoop = true
+								}
+							}
+						}
+					}
+					if refs := ia.X.Referrers(); refs != nil {
+						for _, ref := range *refs {
+							if ref != ssa.Instruction(ia) && set[ref.Block()] {
+								usedInLoop = true
+							}
+						}
+					}
+					if usedInLoop {
+						continue
+					}
+				}
+				for d := range dataDeps(idx) {
+					switch x := d.(type) {
+					case *ssa.Phi:
+						if set[x.Block()] {
+							varies = true
+						}
+					case *ssa.Extract:
+						if nx, ok := x.Tuple.(*ssa.Next); ok && set[nx.Block()] {
+							varies = true
+						}
+					case *ssa.UnOp:
+						// a counter kept in a local that the loop stores into
+						if al, ok := x.X.(*ssa.Alloc); ok {
+							for _, ref := range *al.Referrers() {
+								if s2, ok := ref.(*ssa.Store); ok && s2.Addr == ssa.Value(al) && set[s2.Block()] {
+									varies = true
+								}
+							}
+						}
+					case *ssa.Call:
+						if set[x.Block()] {
+							varies = true
+						}
+					}
+				}
+				_ = h
+				r.check(varies, fmt.Sprintf("%s:fill#%d:index-advances", fname(f), k), "the index changes with the iteration",
+					"every element of the loop is stored into the same slot: the index is defined before the loop and nothing in the loop changes it — the slice ends up holding one element and zeros", w.pos(st.Pos()))
+			}
+		}
+	}
+	r.check(n >= 8, "repo:fill-loops", fmt.Sprintf("%d", n), "too few: rule needs review", "-")
+}
+
+// ---------------------------------------------------------------------------------------------
+// R18.19 — the partitioners advance as many layers as the gap in Z needs
+
+func init() {
+	register(ruleDef{ID: "R18.19", Prop: "C18", Tier: "quick", Floor: 2,
+		Title: "a span is filed under the layer that contains its Z: in the roi partitioners, the step that starts the next layer (newLayer inside the span callback) is the body of a loop on `z > layerEndZ`, not of a single test — with a gap in Z wider than one layer a single step files the span under a layer that ends below it, and the subvolumes returned do not cover the block",
+		Fn:    ruleLayerAdvanceIsALoop})
+}
+
+func ruleLayerAdvanceIsALoop(r *Run) {
+	w := r.W
+	n := 0
+	for _, f := range w.RepoFuncs {
+		if relPkg(pkgPathOf(f)) != "datatype/roi" || len(f.Blocks) == 0 || isTestFunc(w, f) || f.Parent() == nil {
+			continue
+		}
+		k := 0
+		for _, c := range calls(f) {
+			callee := staticCallee(c)
+			if callee == nil || callee.Name() != "newLayer" {
+				continue
+			}
+			n++
+			k++
+			h, set, _ := innermostLoop(f, c.Block())
+			loops := false
+			if set != nil {
+				if ifi, ok := h.Instrs[len(h.Instrs)-1].(*ssa.If); ok {
+					if bo, ok := ifi.Cond.(*ssa.BinOp); ok && (bo.Op == token.GTR || bo.Op == token.LSS || bo.Op == token.GEQ || bo.Op == token.LEQ) {
+						loops = true
+					}
+				}
+			}
+			r.check(loops, fmt.Sprintf("%s:next-layer#%d:advanced-in-a-loop", fname(f), k), "the next layer is started inside a loop on the span's Z against the layer's end",
+				"the next layer is started by a single test of the span's Z against the current layer's end: when the ROI has a gap in Z wider than the batch size, the span lands in a layer that ends below it and no returned subvolume covers its blocks", w.pos(c.Pos()))
+		}
+	}
+	r.check(n >= 2, "roi:layer-advances", fmt.Sprintf("%d", n), "fewer than expected: rule needs review", "-")
+}
+
+// ---------------------------------------------------------------------------------------------
+// R16.26 — imported bytes are decoded before they are stored
+
+func init() {
+	register(ruleDef{ID: "R16.26", Prop: "C16", Tier: "quick", Floor: 1,
+		Title: "what the store gets, memory can read: in a neuronjson function that both stores a value's bytes (Put) and decodes the same bytes for the in-memory database (json.Unmarshal), the decoding comes first — bytes that fail to decode are skipped for memory, so storing them first leaves the store holding an annotation the in-memory head does not have",
+		Fn:    ruleDecodeBeforeStore})
+}
+
+func ruleDecodeBeforeStore(r *Run) {
+	w := r.W
+	n := 0
+	for _, f := range njFuncs(w) {
+		if len(f.Blocks) == 0 || isTestFunc(w, f) {
+			continue
+		}
+		k := 0
+		for _, c := range calls(f) {
+			if !c.Common().IsInvoke() || c.Common().Method.Name() != "Put" {
+				continue
+			}
+			args := c.Common().Args
+			val := args[len(args)-1]
+			for _, c2 := range calls(f) {
+				callee := staticCallee(c2)
+				if callee == nil || callee.Pkg == nil || callee.Pkg.Pkg.Path() != "encoding/json" || callee.Name() != "Unmarshal" {
+					continue
+				}
+				src := c2.Common().Args[0]
+				if !(src == val || sameRoots(src, val, f)) {
+					continue
+				}
+				n++
+				k++
+				r.check(domInstr(c2, c), fmt.Sprintf("%s:put#%d:decoded-first", fname(f), k), "the bytes are decoded before they are stored",
+					"the bytes are stored before they are decoded for the in-memory database: a value that does not decode is skipped for memory but is already in the store — after the next restart the head lists an annotation it did not have before", w.pos(c.Pos()))
+			}
+		}
+	}
+	r.check(n >= 1, "neuronjson:stored-and-decoded-bytes", fmt.Sprintf("%d", n), "none found: rule needs review", "-")
+}
